@@ -189,6 +189,104 @@ func bytesStream(r *lib.Run, rng *lib.Rand, files []savedFile) {
 		}
 	}
 
+	// ---- the directory as part of the initial state: saveConfig with a stale <file>.tmp of every shape (kind savedir),
+	// then two further restarts without an intervening save by a client
+	{
+		d1 := docT{Net1: &n1, Net2: &n2, Leases: d.Leases[:1]}
+		b1, _ := yaml.Marshal(&d1)
+		x1 := withSum(b1)
+		fileTok := func(p string) string {
+			t, err := os.ReadFile(p)
+			if err != nil {
+				return "absent"
+			}
+			return lib.Hex(t)
+		}
+		// control runs in a clean directory: what the constructor's save writes for this table / for no file
+		control := func(lease []byte) []byte {
+			fname := tmpName()
+			defer os.Remove(fname)
+			if lease != nil {
+				os.WriteFile(fname, lease, 0644)
+			}
+			construct(s, c, fname)
+			out, _ := os.ReadFile(fname)
+			return out
+		}
+		other := withSum(body) // a complete save of a different (two-lease) table, longer than the one-lease file
+		if len(files) > 0 {
+			other = files[0].text
+		}
+		for _, lease := range [][]byte{x1, nil} {
+			content := control(lease)
+			want := 0
+			if lease != nil {
+				want = 1
+			}
+			flipped := append([]byte{}, content...)
+			flipped[len(flipped)/2] ^= 0x20
+			shapes := map[string][]byte{
+				"absent": nil, "empty": {}, "shorter": content[:len(content)/2], "same-length-other-content": flipped,
+				"identical": content, "longer-by-1": append(append([]byte{}, content...), 'x'),
+				"longer-by-many": append(append([]byte{}, content...), other...), "older-complete-save": other,
+				"random-long": rng.Bytes(len(content) + 300), "random-short": rng.Bytes(40),
+			}
+			for name, tmp := range shapes {
+				fname := tmpName()
+				if lease != nil {
+					os.WriteFile(fname, lease, 0644)
+				}
+				if name != "absent" {
+					os.WriteFile(fname+".tmp", tmp, 0644)
+				}
+				tmpTok, leaseTok := fileTok(fname+".tmp"), fileTok(fname)
+				b := construct(s, c, fname) // loads, then saves
+				r.Case("savedir", []string{tmpTok, leaseTok, lib.Hex(content)}, "lease="+fileTok(fname)+" tmp="+fileTok(fname+".tmp"))
+				r.Stat("bytes.savedir."+name, 1)
+				ok := len(b.bindings) == want
+				// the restart after that save, and one more: the table must still be there
+				for k := 2; k <= 3; k++ {
+					txt, _ := os.ReadFile(fname)
+					toks := docTokens(txt)
+					bk := construct(s, c, fname)
+					r.Case("newt", append([]string{c.tok(), "-", lib.Hex(txt)}, toks...), bk.obs)
+					if len(bk.bindings) != want {
+						ok = false
+					}
+				}
+				if !ok {
+					r.Viol("restart-after-stale-tmp-lost", fmt.Sprintf("stale temporary file %q (%d bytes) next to a lease file with %d lease(s): the restarts after the save do not restore them", name, len(tmp), want), "")
+				}
+				os.Remove(fname)
+				os.Remove(fname + ".tmp")
+			}
+		}
+		// the same through the save of a real ACK (content carries the clock: only the verdict and the restarts are checked)
+		fname := tmpName()
+		sv := newServer(c, nil, fname)
+		if b0 := construct(sv.s, c, fname); b0.h != nil {
+			sv.h = b0.h
+			before, _ := os.ReadFile(fname)
+			os.WriteFile(fname+".tmp", append(append([]byte{}, before...), rng.Bytes(4000)...), 0644)
+			cl := clientT{mac: macUniv[0], name: "stale"}
+			if _, acked := sv.acquire(cl, ip("192.168.0.50")); acked {
+				txt, _ := os.ReadFile(fname)
+				if k := sumKind(txt); k != "docok" {
+					r.Viol("save-after-stale-tmp-bad-file", "after an ACK with a longer stale temporary file the lease file reads as "+k, "")
+				}
+				for k := 0; k < 2; k++ {
+					if bk := construct(sessionFor(c.nic, "-"), c, fname); len(bk.bindings) != 1 {
+						r.Viol("restart-after-stale-tmp-lost", fmt.Sprintf("ACK saved over a longer stale temporary file: restart %d restores %d bindings", k+1, len(bk.bindings)), "")
+					}
+				}
+				r.Stat("bytes.savedir.ack-path", 1)
+			}
+		}
+		sv.close()
+		os.Remove(fname)
+		os.Remove(fname + ".tmp")
+	}
+
 	// ---- constants of the model against the source
 	r.Case("consts", nil, sourceConsts(r))
 }
@@ -278,6 +376,45 @@ func sourceConsts(r *lib.Run) string {
 			return true
 		})
 	}
+	// how saveConfig opens the temporary file: WriteFile (create-or-TRUNCATE) or an OpenFile whose flags contain O_TRUNC
+	trunc := "?"
+	if sl != nil {
+		ast.Inspect(sl, func(n ast.Node) bool {
+			fd, ok := n.(*ast.FuncDecl)
+			if !ok || fd.Name.Name != "saveConfig" {
+				return true
+			}
+			ast.Inspect(fd, func(m ast.Node) bool {
+				ce, ok := m.(*ast.CallExpr)
+				if !ok {
+					return true
+				}
+				sel, ok := ce.Fun.(*ast.SelectorExpr)
+				if !ok {
+					return true
+				}
+				switch sel.Sel.Name {
+				case "WriteFile":
+					trunc = "T"
+				case "OpenFile", "Create":
+					trunc = "F"
+					if sel.Sel.Name == "Create" {
+						trunc = "T"
+					}
+					for _, a := range ce.Args {
+						ast.Inspect(a, func(x ast.Node) bool {
+							if id, ok := x.(*ast.SelectorExpr); ok && id.Sel.Name == "O_TRUNC" {
+								trunc = "T"
+							}
+							return true
+						})
+					}
+				}
+				return true
+			})
+			return false
+		})
+	}
 	dns := constVal(se, "DNSv4CloudFlareFamily1")
 	dnsTok := dns
 	if a, err := parseAddr4(dns); err == nil {
@@ -285,7 +422,7 @@ func sourceConsts(r *lib.Run) string {
 	}
 	return constVal(sl, "leaseSumKey") + "|" + suffix + "|" +
 		constVal(ls, "StateFree") + "," + constVal(ls, "StateDiscover") + "," + constVal(ls, "StateAllocated") + "|" +
-		constVal(ht, "StageNormal") + "," + constVal(ht, "StageRedirected") + "|" + dur + "|" + dnsTok
+		constVal(ht, "StageNormal") + "," + constVal(ht, "StageRedirected") + "|" + dur + "|" + dnsTok + "|trunc=" + trunc
 }
 
 func parseAddr4(s string) (string, error) {
